@@ -31,3 +31,22 @@ void h_cyclic(void) {
   VASSERT(out[0] == (kind ? 32 : 31) && g_n == 1 && g_h == (kind ? 302 : 301) && g_a == (kind ? 4 : 3), "cyclic visitor: generic_visit selects the overload of the dynamic type and passes the object itself");
   HARNESS_END();
 }
+/* functor_dispatcher over basic_fast_dispatcher: registration history r1, r2, r3 (each one of 5 cells or "none"), then dispatch on symbolic dynamic types.
+ * Model: a 3x3 table, last registration of a cell wins; an unregistered cell must raise (std::bad_function_call from the empty slot or runtime_error), never run a handler. */
+void h_fast(void) {
+  IN(u8, r1); IN(u8, r2); IN(u8, r3); IN(u8, k1); IN(u8, k2); IN(i32, extra); VASSUME(r1 < 6 && r2 < 6 && r3 < 6 && k1 < 3 && k2 < 3);
+#ifdef HISTFIX
+  VASSUME(r1 == HISTFIX / 100 && r2 == (HISTFIX / 10) % 10 && r3 == HISTFIX % 10);
+#endif
+  static const i32 CELL[5] = {11, 12, 21, 32, 23};                /* (row, col) + 1 each, as 10*row+col */
+  i32 table[4][4]; for (int i = 0; i < 4; i++) for (int j = 0; j < 4; j++) table[i][j] = 0;
+  u8 rs[3] = {r1, r2, r3};
+  for (int g = 0; g < 3; g++) if (rs[g] < 5) table[CELL[rs[g]] / 10][CELL[rs[g]] % 10] = 1000 * (g + 1) + CELL[rs[g]];
+  i64 out[2] = {-7, -7}; g_n = 0;
+  w_fast(r1, r2, r3, k1, k2, extra, (u64*)out);
+  i32 e = table[k1 + 1][k2 + 1];
+  if (e) { VASSERT(out[0] == 0 && g_n == 1 && g_h == e, "the handler registered last for the tuple of dynamic types runs"); VASSERT(g_a == 1 && g_b == 2 && g_e == extra && out[1] == extra, "arguments arrive in registered order, the extra argument unchanged"); }
+  else VASSERT(out[0] != 0 && g_n == 0, "no handler registered for the tuple: an exception, never some other handler");
+  WITNESS("reregistered_cell", r1 == r3 && r1 < 5); WITNESS("registration_order_not_index_order", r1 == 3 && r2 == 0); WITNESS("only_permutation_registered", e == 0 && table[k2 + 1][k1 + 1] != 0);
+  HARNESS_END();
+}
